@@ -595,6 +595,35 @@ theorem subList_spec (v : List α) (i1 : Int) (i2 : Nat) :
 example : subList [10, 11, 12, 13] (-2) 7 = [10, 11, 12, 13] ∧ subList [10, 11, 12, 13] 1 2 = [11, 12] ∧
     subList [10, 11, 12, 13] 3 1 = [] := by decide
 
+/-- The clamp of the upper index, for indices as unbounded naturals: whenever `i2` is at or beyond the
+    last position — `size-1`, `size`, `2^31`, `UINT_MAX = 4294967295` (the idiom `Sub_List(v, k, -1)`),
+    anything, there is no upper bound — the result is the tail of the list from `max 0 i1` on.  A clamp
+    that computes `i2 + 1` in 32 bits before comparing it with the size breaks exactly this statement
+    at `i2 = 2^32 - 1`. -/
+theorem subList_clamp (v : List α) (i1 : Int) (i2 : Nat) (h : v.length - 1 ≤ i2) :
+    subList v i1 i2 = v.drop i1.toNat := by
+  have hspec := subList_spec v i1 i2
+  simp only at hspec
+  by_cases hv : v = []
+  · subst hv; simp [subList]
+  · have hlen : 0 < v.length := List.length_pos_iff.mpr hv
+    have hb : min i2 (v.length - 1) = v.length - 1 := by omega
+    rw [hb] at hspec
+    by_cases hab : i1.toNat ≤ v.length - 1
+    · rw [(hspec.2 hv hab).1]
+      apply List.take_of_length_le
+      rw [List.length_drop]; omega
+    · rw [hspec.1 (Or.inr (by omega))]
+      symm; apply List.drop_eq_nil_of_le; omega
+
+/-- in particular the result does not depend on how far beyond the end the upper index lies -/
+theorem subList_clamp_indep (v : List α) (i1 : Int) (i2 i2' : Nat)
+    (h : v.length - 1 ≤ i2) (h' : v.length - 1 ≤ i2') : subList v i1 i2 = subList v i1 i2' := by
+  rw [subList_clamp v i1 i2 h, subList_clamp v i1 i2' h']
+
+example : subList [10, 11, 12, 13] 1 4294967295 = [11, 12, 13] ∧ subList [10, 11, 12, 13] (-1) 4294967295 = [10, 11, 12, 13] ∧
+    subList [10, 11, 12, 13] 2147483647 4294967295 = [] ∧ subList [10, 11, 12, 13] 2 3 = [12, 13] := by decide
+
 theorem combine_eq_append (a b : List α) : combine a b = a ++ b := rfl
 
 theorem flatten_eq_flatten (v : List (List α)) : flatten v = v.flatten := rfl
